@@ -74,6 +74,14 @@ def registry_names(run, rel, array):
 class Fn2(skelmod.Fn):
     def expr(self, n):
         s = skelmod.strip(n)
+        if s.get("kind") == "StringLiteral":
+            import json as _json
+            try:
+                lit = _json.loads(s.get("value", '""'))
+            except Exception:
+                lit = s.get("value", "").strip('"')
+            if not all(32 <= ord(ch) < 127 for ch in lit):      # keep the literal, non-printable bytes spelled \\xNN
+                return "(XStr %s)" % q("".join(ch if 32 <= ord(ch) < 127 else "\\x%02x" % (ord(ch) & 255) for ch in lit))
         if s.get("kind") == "BinaryOperator" and s.get("opcode") == "=":
             return "(XOp %s [%s; %s])" % (q("="), self.expr(s["inner"][0]), self.expr(s["inner"][1]))
         return super().expr(n)
@@ -112,11 +120,17 @@ def emit_fault_skeletons(run):
 
 
 # ---------------------------------------------------------------------------------------- per-object libc call sets
-def object_calls(objs):
+def object_calls(objs, run=None):
     """{relative source name without .c: sorted list of undefined non-snoopy symbols}"""
     res = {}
+    names = {}
+    if run is not None:
+        for src in run.lib_sources(entry=True):
+            rel = os.path.relpath(src, run.tree)
+            names[rel.replace("/", "__")[:-2]] = rel[:-2]
     for o in objs:
-        name = os.path.basename(o)[:-2].replace("__", "/")
+        base = os.path.basename(o)[:-2]
+        name = names.get(base, base.replace("__", "/"))
         p = subprocess.run(["nm", "-u", o], stdout=subprocess.PIPE, text=True)
         syms = sorted(set(l.split()[-1].split("@")[0] for l in p.stdout.splitlines() if l.strip()))
         res[name] = [s for s in syms if not s.startswith("snoopy_") and not s.startswith("_GLOBAL_") and not s.startswith("__stack_chk") and not s.startswith("_ITM_")
@@ -278,7 +292,7 @@ def tr_fault(run, objs=None):
             "From Snoopy Require Import Lib.CStr Fault.Model.\nFrom Coq Require Import String List.\nImport ListNotations.\n"
             "Definition consts : fault_consts :=\n  {| %s |}.\n" % ";\n     ".join(fields))
     if objs is not None:
-        oc = object_calls(objs)
+        oc = object_calls(objs, run)
         v["object_calls"] = oc
         text += "\nLocal Open Scope string_scope.\nDefinition object_calls : list (string * list string) :=\n  [%s].\n" % ";\n   ".join(
             "(%s, [%s])" % (q(k), "; ".join(q(s) for s in oc[k])) for k in sorted(oc))
